@@ -183,6 +183,9 @@ func cmdRun(args []string) {
 			}
 			o.CountReach(hi, b.Faults, b.Probes)
 			vs := def.Judge(hi)
+			if os.Getenv("VERIF_DEBUG_NONOK") != "" && hi.Res.Outcome != simrt.OK && len(vs) == 0 {
+				vs = append(vs, &o.Violation{Prop: *prop, Oracle: "debug-nonok", Msg: hi.Res.Outcome.String() + "\n" + simrt.FormatLive(hi.Res.Live)})
+			}
 			if rd := hi.Res.RaceErrors - race0; rd > 0 && simrt.RaceEnabled() {
 				race0 = hi.Res.RaceErrors
 				b.RaceReports += rd
